@@ -75,6 +75,16 @@ func ruleProducersNeverTouchWrappedWriter(r *Run, p *Prog, rule string, done *ss
 						bad, pos, via = "calls the wrapped writer (w."+c.Call.Method.Name()+")", c.Pos(), FnName(f)
 					}
 				}
+				// any other way of getting at it (io.WriteString(dw.w, …), a type assertion, a
+				// helper that receives it): the producer side has no business reading the field
+				if v, ok := in.(ssa.Value); ok && bad == "" {
+					switch in.(type) {
+					case *ssa.Field, *ssa.FieldAddr:
+						if fv := fieldVar(v); fv != nil && fname(fv) == "w" && fv.Pkg() != nil && fv.Pkg() == m.Pkg.Pkg {
+							bad, pos, via = "reads the wrapped writer (field w of diode.Writer)", in.Pos(), FnName(f)
+						}
+					}
+				}
 			})
 		}
 		r.Ob(rule, FnName(m)+"/producer-entry-non-blocking", p.Pos(pos), bad == "", true, tern(bad == "", "producer entry: nothing reachable locks, waits, uses a channel or calls the wrapped writer", "the producer entry "+FnName(m)+" can block or write itself (in "+via+"): "+bad+" — producers wait for the wrapped writer, the write runs concurrently with the consumer's delivery and overtakes queued messages"))
